@@ -1,6 +1,7 @@
 """C14 — headers are reported exactly as encoded (claimed in part: bit layout): R-BITSPEC (read layout of every header
 parser, extracted from MIR, against the reviewed table) and R-HDRPRED (decision tables of the canvas predicates that gate
 header fields)."""
+import re
 import itertools
 import json
 import os
@@ -46,6 +47,23 @@ def canon_read(r):
     return head + (("  if " + " & ".join(conds)) if conds else "")
 
 
+_IDENT = re.compile(r"ret:[A-Za-z_0-9]+|[A-Za-z_][A-Za-z_0-9]*")
+_KEEP = {"variant", "len", "Gt", "Ge", "Lt", "Le", "Eq", "Ne", "Not", "if", "each", "true", "false"}
+
+
+def wild_locals(r, field_names):
+    head, sep, cond = r.partition("  if ")
+    if not sep:
+        return r
+
+    def sub(m):
+        t = m.group(0)
+        if t.startswith("ret:") or t in _KEEP or t in field_names or re.fullmatch(r"arg\d+", t):
+            return t
+        return "_"
+    return head + sep + _IDENT.sub(sub, cond)
+
+
 def rule_bitspec(ctx):
     rid = "R-BITSPEC"
     ctx.rule(rid, "for every header parser (all Bundle::parse impls and hand-written readers of jxl-image, jxl-oxide-common and "
@@ -61,6 +79,7 @@ def rule_bitspec(ctx):
         return
     got = extract_all(ctx.prog)
     reviewed = 0
+    field_names = None
     for path, entry in sorted(ref["functions"].items()):
         want = entry["reads"]
         if path not in got:
@@ -73,6 +92,19 @@ def rule_bitspec(ctx):
             reviewed += 1
         have_raw, want_raw = have, want
         have, want = [canon_read(x) for x in have], [canon_read(x) for x in want]
+        if have != want and len(have) == len(want):
+            # second chance: names of plain locals inside the controlling conditions are not layout (a renamed temporary); names that
+            # are fields of some header structure are kept
+            if field_names is None:
+                field_names = set()
+                for cr in ctx.prog.crates.values():
+                    for a in cr.adts.values():
+                        for v in a["variants"]:
+                            for fl in v["fields"]:
+                                field_names.add(str(fl[0]))
+            h2, w2 = [wild_locals(x, field_names) for x in have], [wild_locals(x, field_names) for x in want]
+            if h2 == w2:
+                have = want
         if have == want:
             ctx.ok(rid, "layout:%s" % path, "%d reads%s" % (len(have), "" if entry.get("reviewed") else " (snapshot, not independently reviewed)"),
                    nontrivial=len(have) > 1, fn=f)
